@@ -4,7 +4,7 @@
    exact value (sign s, magnitude v) rounded once, +-0 / +-Inf outside the
    exponent range.  `scaled a e` = a * 10^e as a rational. *)
 From Coq Require Import ZArith QArith.
-From Dec Require Import Base.QPow L3.Decimal L3.CmpProofs L3.Round L3.Arith L3.Convert Spec.Rounding L3.ArithProofs L3.ConvertProofs.
+From Dec Require Import Base.QPow L3.Decimal L3.CmpProofs L3.Round L3.Arith L3.Convert Spec.Rounding L3.ArithProofs L3.ConvertProofs L3.ConvProofs2.
 Open Scope Z_scope.
 
 Theorem C14_setint64 : forall z x, MinInt64 <= x <= MaxInt64 -> x <> 0 -> 0 <= prec z <= MaxPrec ->
@@ -60,9 +60,81 @@ Theorem C14_minprec : forall x, WFfin x -> dform x = Ffinite ->
 Proof. exact MinPrec_spec. Qed.
 Print Assumptions C14_minprec.
 
-(* Not yet closed as theorems (decided by the correspondence run and the independent
-   oracle of harness/props/C14.py): C14_int64 / C14_uint64 (saturation at the type's
-   bounds), C14_isint, C14_setrat. *)
+(* Int64 / Uint64.  For every canonical finite x there are t and a with: t is x truncated
+   toward zero (|t| = floor |x|, the sign of x), a = Exact iff x is an integer and otherwise
+   a = Above for x < 0, Below for x > 0 (the accuracy of t with respect to x); the call
+   returns (t, a) when t fits the type and saturates as documented otherwise.  This covers
+   the model's shortcuts (exp > 20 means |x| >= 10^20 > 2^64; toUint64's two-word limit). *)
+Theorem C14_int64 : forall x, WF x -> dform x = Ffinite ->
+  exists t a,
+    ((scaled (Z.abs t) 0 <= mag x)%Q /\ (mag x < scaled (Z.abs t + 1) 0)%Q /\
+     (t < 0 -> neg x = true) /\ (0 < t -> neg x = false) /\
+     (a = Exact <-> (mag x == scaled (Z.abs t) 0)%Q) /\ (a <> Exact -> a = makeAcc (neg x))) /\
+    Int64 x = (if t <? MinInt64 then (MinInt64, Above)
+               else if MaxInt64 <? t then (MaxInt64, Below) else (t, a)).
+Proof. exact Int64_correct. Qed.
+Print Assumptions C14_int64.
+
+Theorem C14_int64_nonfinite : forall x,
+  (dform x = Fzero -> Int64 x = (0, Exact)) /\
+  (dform x = Finf -> Int64 x = if neg x then (MinInt64, Above) else (MaxInt64, Below)).
+Proof. exact Int64_nonfinite. Qed.
+Print Assumptions C14_int64_nonfinite.
+
+Theorem C14_uint64 : forall x, WF x -> dform x = Ffinite ->
+  exists t a,
+    ((scaled (Z.abs t) 0 <= mag x)%Q /\ (mag x < scaled (Z.abs t + 1) 0)%Q /\
+     (t < 0 -> neg x = true) /\ (0 < t -> neg x = false) /\
+     (a = Exact <-> (mag x == scaled (Z.abs t) 0)%Q) /\ (a <> Exact -> a = makeAcc (neg x))) /\
+    Uint64 x = (if t <? 0 then (0, Above)
+                else if MaxUint64 <? t then (MaxUint64, Below) else (t, a)).
+Proof. exact Uint64_correct. Qed.
+Print Assumptions C14_uint64.
+
+Theorem C14_uint64_nonfinite : forall x,
+  (dform x = Fzero -> Uint64 x = (0, Exact)) /\
+  (dform x = Finf -> Uint64 x = if neg x then (0, Above) else (MaxUint64, Below)).
+Proof. exact Uint64_nonfinite. Qed.
+Print Assumptions C14_uint64_nonfinite.
+
+(* IsInt: true exactly when the value is an integer; +-0 is, +-Inf is not *)
+Theorem C14_isint : forall x, WF x -> dform x = Ffinite ->
+  (IsInt x = true <-> exists n, (mag x == scaled n 0)%Q).
+Proof. exact IsInt_correct. Qed.
+Print Assumptions C14_isint.
+
+Theorem C14_isint_nonfinite : forall x,
+  (dform x = Fzero -> IsInt x = true) /\ (dform x = Finf -> IsInt x = false).
+Proof. exact IsInt_nonfinite. Qed.
+Print Assumptions C14_isint_nonfinite.
+
+(* SetRat(num/den), den > 1 (big.Rat keeps den > 0; gcd(num, den) = 1 is not needed):
+   num/den rounded ONCE to the receiver's precision and mode; a receiver of precision 0
+   takes max(34, digits of num, digits of den) (setrat_prec, from setint_prec).  Size
+   conditions: both integers below 10^MaxExp (a larger one already overflows to Inf in the
+   intermediate SetInt) and digit counts + precision within the uint32 arithmetic of Quo. *)
+Theorem C14_setrat : forall z num den Dn Dd,
+  num <> 0 -> 1 < den -> Z.abs num < 10 ^ Dn -> den < 10 ^ Dd ->
+  0 <= Dn <= MaxExp -> 0 <= Dd <= MaxExp -> 0 <= prec z <= MaxPrec ->
+  Dn + Dd + setrat_prec z num den + 76 < 4294967296 - 18 ->
+  OpPost (setrat_prec z num den) (dmode z) (num <? 0) (inject_Z (Z.abs num) / inject_Z den) (SetRat z num den).
+Proof. exact SetRat_correct. Qed.
+Print Assumptions C14_setrat.
+
+Theorem C14_setrat_zero : forall z den Dd,
+  1 < den -> den < 10 ^ Dd -> 0 <= Dd <= MaxExp -> 0 <= prec z <= MaxPrec ->
+  exists z', SetRat z 0 den = OkR z' /\ dform z' = Fzero /\ neg z' = false /\ acc z' = Exact /\
+    prec z' = (if prec z =? 0 then Z.max DefaultDecimalPrec (setint_prec dec_zero den) else prec z) /\
+    dmode z' = dmode z /\ WF z'.
+Proof. exact SetRat_zero. Qed.
+Print Assumptions C14_setrat_zero.
+
+(* an integer rational is set by SetInt (C14_setint) *)
+Theorem C14_setrat_int : forall z num, SetRat z num 1 = SetInt z num.
+Proof. exact SetRat_den1. Qed.
+Print Assumptions C14_setrat_int.
+
+(* All C14 statements are closed as theorems. *)
 
 Example C14_examples :
   let x := mkDec [9223372036854775807] 19 19 ToNearestEven Exact Ffinite false in   (* 2^63-1 *)
